@@ -22,7 +22,9 @@ Definition q0 (es : list cnode) : cnode := CSeq (h0 "!!seq" 0) es.
 Inductive case20 :=
 | KDocs (docs : list (cnode * sch)) (nonstr : list string)
         (cls : oclass) (outs : list cnode)
-        (written : option (list cnode))
+        (written : option (list cnode * bool))   (* re-parsed ByteWriter output; compare comments? *)
+        (dc_in dc_out : list string)             (* comments on the DocumentNodes (outside fmtNode's reach)
+                                                    of the input / of the re-parsed output *)
 | KTable (ranks : list (string * option N))
          (kinds apis : list (string * bool))
          (fields : list (string * option string))
@@ -100,11 +102,20 @@ Definition sort_strs (l : list string) : list string := isort_list String.ltb l.
 Definition same_multiset (a b : list string) : bool :=
   list_eqb String.eqb (sort_strs a) (sort_strs b).
 
-Definition written_agree (model_out : list cnode) (w : list cnode) : bool :=
+(* [with_comments] is false when go-yaml alone (reader + writer, no formatter) already loses or
+   duplicates a comment line of this input (S3): then only the skeleton is compared *)
+Definition lines_of (cs : list string) : list string :=
+  filter (fun s => negb (String.eqb s "")) (flat_map (fun c => map trim_space (split_on nl c)) cs).
+
+Definition written_agree (model_out : list cnode) (w : list cnode) (with_comments : bool)
+           (dc_in dc_out : list string) : bool :=
   match mapM writer_clean model_out with
   | Ok cleaned =>
       list_eqb skel_eqb (map skel_of cleaned) (map skel_of w) &&
-      same_multiset (flat_map comment_lines cleaned) (flat_map comment_lines w)
+      (negb with_comments ||
+       (* a comment may move between the document node and its first / last key when keys move *)
+       same_multiset (flat_map comment_lines cleaned ++ lines_of dc_in)%list
+                     (flat_map comment_lines w ++ lines_of dc_out)%list)
   | _ => false
   end.
 
@@ -129,14 +140,14 @@ Fixpoint count_distinct (l : list string) : N :=
 
 Definition agree20 (c : case20) : bool :=
   match c with
-  | KDocs docs ns cls outs written =>
+  | KDocs docs ns cls outs written dci dco =>
       let nonstr := fun s => str_in s ns in
       match filter_stream nonstr isort docs with
       | Ok outs' =>
           oclass_eqb20 cls COk && list_eqb cnode_eqb outs' outs &&
           match written with
           | None => true
-          | Some w => written_agree outs' w
+          | Some w => written_agree outs' (fst w) (snd w) dci dco
           end
       | r => oclass_eqb20 cls (class_of r)
       end
@@ -162,7 +173,7 @@ Definition mismatches20 (l : list case20) : list N := mism_from20 0%N l.
 (* diagnostic: which comparison fails (0 = none) — used when investigating a disagreement *)
 Definition diag20 (c : case20) : N :=
   match c with
-  | KDocs docs ns cls outs written =>
+  | KDocs docs ns cls outs written dci dco =>
       let nonstr := fun s => str_in s ns in
       match filter_stream nonstr isort docs with
       | Ok outs' =>
@@ -170,11 +181,12 @@ Definition diag20 (c : case20) : N :=
           else if negb (list_eqb cnode_eqb outs' outs) then 2%N
           else match written with
                | None => 0%N
-               | Some w =>
+               | Some (w, wc) =>
                    match mapM writer_clean outs' with
                    | Ok cleaned =>
                        if negb (list_eqb skel_eqb (map skel_of cleaned) (map skel_of w)) then 4%N
-                       else if negb (same_multiset (flat_map comment_lines cleaned) (flat_map comment_lines w)) then 5%N
+                       else if wc && negb (same_multiset (flat_map comment_lines cleaned ++ lines_of dci)%list
+                                                           (flat_map comment_lines w ++ lines_of dco)%list) then 5%N
                        else 0%N
                    | _ => 3%N
                    end
